@@ -97,8 +97,8 @@ CLAIMS = {
         "each call site the frame's time axis is its own axis shifted by its start time relative to the first frame, and on normal AND "
         "exceptional exit (user callback raising in any frame) every frame's time axis equals what it was; overwrite_times spaces consecutive "
         "frames by exactly the slew time (sequential loop invariant). Frame.add_signal is used through its C01 contract, which is proved for "
-        "a shifted axis including the sub-sample grids. Also: single-frame injection on a shifted time axis (sub-sample grids, smearing end points from the frame's own ts) - C01's contract, discharged again.",
-   note="trusted: pyvc engine (heap model); (ts+o)-o = ts over the reals; overwrite_times assumes distinct positions hold distinct frames; consolidate is covered by the bounded native run only",
+        "a shifted axis including the sub-sample grids. Also: single-frame injection on a shifted time axis (sub-sample grids, smearing end points from the frame's own ts) - C01's contract, discharged again. consolidate(): rows of every frame in cadence order and every frame's own sample times made absolute, for frames of different lengths (1-3 frames enumerated).",
+   note="trusted: pyvc engine (heap model); (ts+o)-o = ts over the reals; overwrite_times assumes distinct positions hold distinct frames; consolidate is proved for 1-3 frames (enumerated) of arbitrary, different lengths",
    technique="contract-based deductive verification (loop invariants over a symbolic heap, exceptional postcondition, modular call contract); bounded native replay"),
  'C04': dict(cat='proof', ref='DESIGN.md 2/C04',
    text="Writer: format_header_line returns exactly 80 characters with the key in columns 0-7 for every valid card form (string-length model); "
